@@ -180,6 +180,22 @@ func (p *printer) fun(f *FuncDecl, access string) {
 	p.line("}")
 }
 
+// funExpr prints a function expression / inner function: head { pre post body }
+// without indentation of the first line and without a trailing newline.
+func (p *printer) funExpr(d *FuncDecl, head string) {
+	head += "(" + p.params(d.Params) + ")"
+	if d.Ret != nil && d.Ret.K != KVoid {
+		head += ": " + p.ty(d.Ret)
+	}
+	p.sb.WriteString(head + " {\n")
+	p.ind++
+	p.conds("pre", d.Pre)
+	p.conds("post", d.Post)
+	p.stmts(d.Body)
+	p.ind--
+	p.sb.WriteString(strings.Repeat("    ", p.ind) + "}")
+}
+
 func (p *printer) conds(kw string, cs []Condition) {
 	if len(cs) == 0 {
 		return
@@ -273,6 +289,10 @@ func (p *printer) stmt(s Stmt) {
 		p.line("continue")
 	case Emit:
 		p.line("emit %s%s(%s)", p.qual, s.Event, p.args(s.Args))
+	case FuncStmt:
+		p.sb.WriteString(strings.Repeat("    ", p.ind))
+		p.funExpr(s.Decl, "fun "+s.Decl.Name)
+		p.sb.WriteByte('\n')
 	case Panic:
 		p.line("panic(%q)", s.Msg)
 	case Destroy:
@@ -413,16 +433,7 @@ func (p *printer) expr(e Expr) string {
 		return sb.String()
 	case Closure:
 		sub := &printer{ind: p.ind, qual: p.qual, fqual: p.fqual}
-		d := e.Decl
-		head := "fun (" + sub.params(d.Params) + ")"
-		if d.Ret != nil && d.Ret.K != KVoid {
-			head += ": " + sub.ty(d.Ret)
-		}
-		sub.sb.WriteString(head + " {\n")
-		sub.ind++
-		sub.stmts(d.Body)
-		sub.ind--
-		sub.sb.WriteString(strings.Repeat("    ", sub.ind) + "}")
+		sub.funExpr(e.Decl, "fun ")
 		return sub.sb.String()
 	case Before:
 		return "before(" + p.expr(e.X) + ")"
